@@ -14,14 +14,14 @@ import (
 
 // Clause is one requires / ensures / invariant line.
 type Clause struct {
-	Kind  string // requires, ensures, invariant
-	Label string // e.g. C17.cover ("" if none)
-	Text  string // original text
-	Go    string // text rewritten into Go
-	Loop  int    // for invariants: loop ordinal (1-based, source order)
-	Fn    string // name of the generated clause function
-	Args  []ArgDesc
-	Src   string // file:line
+	Kind   string // requires, ensures, invariant
+	Label  string // e.g. C17.cover ("" if none)
+	Text   string // original text
+	Go     string // text rewritten into Go
+	Loop   int    // for invariants: loop ordinal (1-based, source order)
+	Fn     string // name of the generated clause function
+	Args   []ArgDesc
+	Src    string // file:line
 	Broken string // non-empty: the clause no longer type-checks against the code (message)
 }
 
@@ -36,42 +36,42 @@ type Logical struct{ Name, Type string }
 
 // Contract is the parsed //@ block of one function.
 type Contract struct {
-	Key       string // types.Func FullName (+ $n for closures)
-	Decl      string // the func line as written
-	RecvName  string
-	Params    []ArgDesc // receiver first (Kind recv) then params
-	Results   []ArgDesc
-	Logicals  []Logical
-	Requires  []*Clause
-	Ensures   []*Clause
-	Defines   []*Clause // ghost assignments at return: constrain the fields of the entries this call appends
-	Invs      []*Clause
-	Mode      string // "", "bv", "int"
-	Inline    bool
-	NoInline  bool
-	Trusted   bool // assumed contract (dependency or explicitly trusted): body is not verified
-	Pure      bool // modifies nothing
-	Modifies  []string
-	ModAll    bool
-	Ext       bool
-	Closure   int      // >0: n-th anonymous function of the parent
-	FreeVars  []ArgDesc // for closures: names usable in clauses
-	Src       string
-	NoReturn  bool
-	LoopMods  map[int][]string
-	Variadic  bool
-	Assumes   []string
-	Props     []string
-	Calls     map[string]map[string]string // callee key -> logical -> expression (instantiations)
-	MayBlock  bool
-	Nonblock  bool
-	Unchecked []string // obligation kinds not generated for this function (documented assumption)
-	DeadReturns []int  // returns (source order) that the callee contracts make unreachable (defensive code)
-	Lemmas    []string // opt-in lemma families (bvarith)
-	Fresh     []string // components written only in objects allocated during the call
-	LoopFresh map[int][]string
-	KFExcept  []KFClause
-	Appends   []string // ghost logs that receive exactly one entry per call (trusted primitives only)
+	Key         string // types.Func FullName (+ $n for closures)
+	Decl        string // the func line as written
+	RecvName    string
+	Params      []ArgDesc // receiver first (Kind recv) then params
+	Results     []ArgDesc
+	Logicals    []Logical
+	Requires    []*Clause
+	Ensures     []*Clause
+	Defines     []*Clause // ghost assignments at return: constrain the fields of the entries this call appends
+	Invs        []*Clause
+	Mode        string // "", "bv", "int"
+	Inline      bool
+	NoInline    bool
+	Trusted     bool // assumed contract (dependency or explicitly trusted): body is not verified
+	Pure        bool // modifies nothing
+	Modifies    []string
+	ModAll      bool
+	Ext         bool
+	Closure     int       // >0: n-th anonymous function of the parent
+	FreeVars    []ArgDesc // for closures: names usable in clauses
+	Src         string
+	NoReturn    bool
+	LoopMods    map[int][]string
+	Variadic    bool
+	Assumes     []string
+	Props       []string
+	Calls       map[string]map[string]string // callee key -> logical -> expression (instantiations)
+	MayBlock    bool
+	Nonblock    bool
+	Unchecked   []string // obligation kinds not generated for this function (documented assumption)
+	DeadReturns []int    // returns (source order) that the callee contracts make unreachable (defensive code)
+	Lemmas      []string // opt-in lemma families (bvarith)
+	Fresh       []string // components written only in objects allocated during the call
+	LoopFresh   map[int][]string
+	KFExcept    []KFClause
+	Appends     []string // ghost logs that receive exactly one entry per call (trusted primitives only)
 }
 
 type KFClause struct {
@@ -95,17 +95,17 @@ type Guarded struct {
 }
 
 type ContractSet struct {
-	byKey    map[string]*Contract
-	order    []*Contract
-	guarded  []Guarded
-	goDecls  []string          // raw Go text from ext files
-	imports  map[string]string // alias -> path
-	ghostUF  map[string]bool   // uninterpreted ghost functions
-	props    map[string][]string
-	immut    []string
-	errs     []string
-	consts   map[string]bool
-	typeInvs map[string][]*Clause
+	byKey      map[string]*Contract
+	order      []*Contract
+	guarded    []Guarded
+	goDecls    []string          // raw Go text from ext files
+	imports    map[string]string // alias -> path
+	ghostUF    map[string]bool   // uninterpreted ghost functions
+	props      map[string][]string
+	immut      []string
+	errs       []string
+	consts     map[string]bool
+	typeInvs   map[string][]*Clause
 	immutables []Immutable
 	pinned     []Pinned
 	srcPkgs    []string
@@ -623,7 +623,9 @@ func (c *Contract) parseDecl(pkgPath string, imports map[string]string) error {
 func ext(string) bool { return false }
 
 // extFuncKey: for package-level functions of other packages the decl is written as
-//   func pkgalias__Name(...)
+//
+//	func pkgalias__Name(...)
+//
 // which maps to "path.Name".
 func (c *Contract) fixExtKey(pkgPath string, imports map[string]string) {
 	if !strings.HasPrefix(c.Key, pkgPath+".") {
